@@ -82,7 +82,7 @@ func (ps *limitedSet) Peers(ctx context.Context) ([]peer.ID, error) {
 		return out, nil
 	}
 	ps.lk.RUnlock()
-	verifEv(ps, "peers.empty")
+	verifEv(ps, "peers.empty", "")
 
 	// block until a new peer will be discovered
 	select {
